@@ -1,6 +1,7 @@
 package s3afero
 
 import (
+	"bytes"
 	"crypto/md5"
 	"encoding/hex"
 	"fmt"
@@ -422,6 +423,15 @@ func (db *MultiBucketBackend) PutObject(
 	input io.Reader, size int64,
 ) (result gofakes3.PutObjectResult, err error) {
 
+	// Read (and length-check) the whole body before touching the file system,
+	// like the other backends do: a rejected or incomplete upload must not
+	// truncate the existing object, and the input may be the very file we are
+	// about to overwrite (copying an object onto itself).
+	bts, err := gofakes3.ReadAll(input, size)
+	if err != nil {
+		return result, err
+	}
+
 	err = gofakes3.MergeMetadata(db, bucketName, objectName, meta)
 	if err != nil {
 		return result, err
@@ -464,7 +474,7 @@ func (db *MultiBucketBackend) PutObject(
 
 	hasher := md5.New()
 	w := io.MultiWriter(f, hasher)
-	if _, err := io.Copy(w, input); err != nil {
+	if _, err := io.Copy(w, bytes.NewReader(bts)); err != nil {
 		return result, err
 	}
 
